@@ -77,33 +77,10 @@ def _from_display(F: Facts, m: Module, d: ast.Dict, out: Dict[str, Entry], depth
 def _from_execution(F: Facts, m: Module) -> Dict[str, Entry]:
     """The table is filled at import time (FUNCTIONS = {} followed by registration calls / decorators): execute the
     module body symbolically and read the resulting dict."""
-    from .symexec import SymExec, Frame, DictVal, Closure, Unrecognised, freeze, is_const, _Signal
+    from .symexec import DictVal, Closure, freeze, is_const, exec_module_body
     dummy = ast.parse('def __module_body__():\n    pass').body[0]
-    se = SymExec(F, FuncInfo(m.name + '.<module>', m, dummy))
-    se._reset([])
-    fr = Frame(m, m.name + '.<module>', None)
-    se.module_env[m.name] = fr.env
-    for st in m.tree.body:
-        try:
-            if isinstance(st, ast.ClassDef):
-                continue
-            if isinstance(st, (ast.Import, ast.ImportFrom)):
-                continue          # imports are resolved through the module's import table
-            if isinstance(st, ast.FunctionDef):
-                # bind the name to the package function; apply package decorators (registration decorators run here)
-                qual = m.name + '.' + st.name
-                val = ('ref', 'fn', qual)
-                if se.package_decorators(m, st):
-                    mfr = fr
-                    cur = ('ref', 'fnraw', qual)
-                    for d in reversed(se.package_decorators(m, st)):
-                        dec = se.ev(d, mfr)
-                        cur = se.call(dec, [cur], [], d, mfr)
-                continue
-            se.exec_stmt(st, fr)
-        except (Unrecognised, _Signal):
-            continue
-    tab = fr.env.get(TABLE)
+    env = exec_module_body(F, m)
+    tab = env.get(TABLE)
     if not isinstance(tab, DictVal):
         raise AnalysisError('%s.%s is not built as a dict the analysis can follow' % (FUNCS_MOD, TABLE))
     out: Dict[str, Entry] = {}
